@@ -42,10 +42,14 @@ pub fn set_process_seed(s: u64) {
 
 /// Run `f` on a fresh thread whose `RandomState` keys derive from `seed`
 pub fn with_hash_seed<T: Send + 'static>(seed: u64, f: impl FnOnce() -> T + Send + 'static) -> std::thread::Result<T> {
+    let env = crate::envsim::current();
     std::thread::Builder::new()
         .stack_size(8 << 20)
         .spawn(move || {
             THREAD_SEED.with(|c| c.set(Some((seed, 0))));
+            if env != 0 {
+                crate::envsim::begin(env);
+            }
             f()
         })
         .expect("spawn")
